@@ -130,7 +130,11 @@ def validate_job_dir_and_return_meta(output_dir):
         glob.glob(os.path.join(output_dir, "*", "screen_metadata.json"))
     )
 
-    if len(screen_metadata) == 0:
+    selected_plate = list(glob.glob(os.path.join(output_dir, "*", "selected_plate")))
+
+    # the metadata job of the prospective workflow does not wait for the selection,
+    # so the metadata file alone does not mean the step has finished
+    if len(screen_metadata) == 0 or len(selected_plate) == 0:
         return None
 
     screen_metadata = screen_metadata[0]
